@@ -1,4 +1,5 @@
 import H4.Lemmas.FormatWF
+import H4.Lemmas.FormatDesc
 import H4.Lemmas.VGroupCodec
 import H4.Props.C05
 set_option linter.unusedSimpArgs false
@@ -14,7 +15,10 @@ exactly.
 **Structural theorems** about the reader as a decision procedure: whatever `decodeFile` accepts satisfies `WFFile` (the
 clauses of the property: magic, acyclic in-bounds chain of descriptor blocks that is exactly what the bytes say, no tag 0,
 no duplicate tag/ref, every extent inside the file, no overlap unless equal extents), and the chain walk needs no more fuel
-than the file has bytes.
+than the file has bytes.  For the old-style descriptive records (`DFTAG_NT`, `DFTAG_SDD`, `DFTAG_ID` / `DFTAG_LD`) that the DFSD / DFR8 /
+DF24 / DFGR interfaces define and the SD and GR interfaces keep up to date: whatever `decodeFile` accepts has, in every `DFTAG_NDG` /
+`DFTAG_SDG` / `DFTAG_RIG` group, dimension records that decode, name well-formed number types and describe EXACTLY as many bytes as the
+data element of the same group holds (`sdd_consistent`, `id_consistent`).
 
 The per-file part of the property (V/SD/GR/AN writers emit consistent cross references; the library reads the same content;
 the raw-location queries agree) is translation validation: engine `fmt` (harness/e_fmt.c) runs `h4model read` on every file. -/
@@ -126,6 +130,40 @@ theorem vgroup_writer_model_roundtrip (g : H4.VGroup.VG) (h : g.WFmem) :
 /-- version record -/
 theorem decodeVersion_encodeVersion (v : Version) (h : v.WF) : decodeVersion (encodeVersion v) = some v := decodeVersion_encode v h
 
+/-! ## old-style descriptive records (`DFTAG_NT`, `DFTAG_SDD`, `DFTAG_ID` / `DFTAG_LD` / `DFTAG_MD`, `DFTAG_SDL` / `DFTAG_SDU` / `DFTAG_SDF`) -/
+
+/-- number type record: every version / type / width / class byte -/
+theorem decodeNT_encodeNT (n : NT) (h : n.InRange) : decodeNT (encodeNT n) = some n := decodeNT_encode n h
+/-- and the other direction: a 4-byte element is the record of exactly the number type it decodes to -/
+theorem encodeNT_decodeNT (b : Bytes) (n : NT) (h : decodeNT b = some n) : encodeNT n = b := encodeNT_decode b n h
+example : decodeNT (encodeNT ⟨1, 24, 32, 1⟩) = some ⟨1, 24, 32, 1⟩ := by decide +kernel
+example : decodeNT [1, 24, 32] = none := by decide +kernel
+
+/-- dimension record of a scientific data set: any rank (uint16), every int32 dimension size, every tag/ref of the rank + 1
+    number types -/
+theorem decodeSDD_encodeSDD (s : SDD) (h : s.InRange) : decodeSDD (encodeSDD s) = some s := decodeSDD_encode s h
+/-- its length is the one `DFSDIputndg` / `hdf_write_var` compute -/
+theorem encodeSDD_length (s : SDD) (h : s.scaleNTs.length = s.dims.length) :
+    (encodeSDD s).length = 2 + 4 * s.dims.length + 4 * (s.dims.length + 1) := H4.Format.encodeSDD_length s h
+example : (⟨[2147483647, 0, 7], (106, 5), [(106, 5), (106, 5), (106, 65535)]⟩ : SDD).InRange := by
+  unfold SDD.InRange S32; decide
+example : decodeSDD (encodeSDD ⟨[5, 4], (106, 3), [(106, 3), (106, 3)]⟩) = some ⟨[5, 4], (106, 3), [(106, 3), (106, 3)]⟩ := by decide +kernel
+/-- a record that is cut short, or has bytes left over, is not a dimension record -/
+example : decodeSDD ((encodeSDD ⟨[5, 4], (106, 3), [(106, 3), (106, 3)]⟩).dropLast) = none := by decide +kernel
+example : decodeSDD (encodeSDD ⟨[5, 4], (106, 3), [(106, 3), (106, 3)]⟩ ++ [0]) = none := by decide +kernel
+
+/-- image / palette / matte dimension record: every int32 size, int16 component count and interlace, uint16 tag/refs -/
+theorem decodeImgDesc_encodeImgDesc (d : ImgDesc) (h : d.InRange) : decodeImgDesc (encodeImgDesc d) = some d :=
+  decodeImgDesc_encode d h
+example : (⟨256, 1, 0, 0, 3, 0, 0, 0⟩ : ImgDesc).InRange := by unfold ImgDesc.InRange S32 S16; decide
+example : decodeImgDesc (encodeImgDesc ⟨12, 7, 106, 2, 3, 2, 11, 2⟩) = some ⟨12, 7, 106, 2, 3, 2, 11, 2⟩ := by decide +kernel
+
+/-- label / unit / format records: any number of strings that do not contain the terminator -/
+theorem decodeStrs_encodeStrs (l : List Bytes) (h : ∀ s ∈ l, (0 : UInt8) ∉ s) : decodeStrs (encodeStrs l) = some l :=
+  decodeStrs_encode l h
+example : decodeStrs (encodeStrs [[0x61, 0x62], [], [0x63]]) = some [[0x61, 0x62], [], [0x63]] := by decide +kernel
+example : decodeStrs [0x61, 0, 0x62] = none := by decide +kernel
+
 /-! ## compressed payloads -/
 
 /-- the reader expands RLE payloads with `rleTake`, which stops after the uncompressed length (stale bytes may follow the
@@ -177,6 +215,10 @@ structure WFFile (b : ByteArray) (c : FileContent) : Prop where
     (∀ m ∈ p.2.attrs, (findDD c.dds m.1 m.2).isSome = true)
   /-- every attribute of every Vdata names an existing descriptor -/
   vh_xref : ∀ p ∈ c.vhs, ∀ a ∈ p.2.attrs, (findDD c.dds a.atag a.aref).isSome = true
+  /-- the old-style descriptive records raise no complaint: every number type, dimension record and image dimension record named by a
+      `DFTAG_NDG` / `DFTAG_SDG` / `DFTAG_RIG` group or a `Var0.0` / `RI0.0` Vgroup decodes and agrees with the length of the data element
+      of the same group (`sdd_consistent` below spells this out for data sets) -/
+  desc : descComplaints c.elems c.vgs = []
 
 /-- **soundness of the reader as a decision procedure**: every file `decodeFile` accepts is well formed -/
 theorem decodeFile_wf (b : ByteArray) (c : FileContent) (h : decodeFile b = .ok c) : WFFile b c := by
@@ -189,7 +231,7 @@ theorem decodeFile_wf (b : ByteArray) (c : FileContent) (h : decodeFile b = .ok 
   have hinv := walk_inv b _ _ _ _ (walkInv_nil b) hw
   simp only [chainOK, Bool.and_eq_true] at k1
   obtain ⟨⟨⟨c1, c2⟩, c3⟩, c4⟩ := k1
-  refine ⟨hm, e1, ?_, ?_, ?_, ?_, ?_, ?_, ?_, ?_, ?_, ?_, f1, ?_, f3⟩
+  refine ⟨hm, e1, ?_, ?_, ?_, ?_, ?_, ?_, ?_, ?_, ?_, ?_, f1, ?_, f3, decodeFile_desc h⟩
   rotate_right
   · intro p hp; exact ⟨fun m hm => (f2 p hp).1 m hm, fun m hm => (f2 p hp).2 m hm⟩
   · rw [e2]; simpa using c1
@@ -235,6 +277,72 @@ theorem decodeFile_wf (b : ByteArray) (c : FileContent) (h : decodeFile b = .ok 
     · exact Or.inl h1
     · exact Or.inr (Or.inl h1)
     · exact Or.inr (Or.inr ⟨a1, a2, a3, a4⟩)
+
+/-- **an accepted file's dimension records are consistent with its data**: for every `DFTAG_NDG` / `DFTAG_SDG` group of a file the
+    reader accepts and every `DFTAG_SDD` the group names that is in the file: the record decodes (rank, sizes, rank + 1 number types),
+    no size is negative, the data's and every scale's number type is a well-formed 4-byte `DFTAG_NT` of a type `DFKNTsize` knows, and
+    when the group names a data element `DFTAG_SD` that has been written then
+    `product(sizes) · size(number type) = logical length of that element`.
+    This is the clause a record variable's SDD that claims the file-wide record count violates. -/
+theorem sdd_consistent (b : ByteArray) (c : FileContent) (h : decodeFile b = .ok c)
+    (e : Elem) (he : e ∈ c.elems) (htag : e.dd.tag = H4.Gen.Hdf.DFTAG_NDG ∨ e.dd.tag = DFTAG_SDG)
+    (ms : List (Nat × Nat)) (hms : (e.ldata.data.map (·.toList)).bind decodeGroup = some ms)
+    (r : Nat) (hr : (DFTAG_SDD, r) ∈ ms) (se : Elem) (hse : elemOf c.elems DFTAG_SDD r = some se) :
+    ∃ bs s sz, se.ldata.data.map (·.toList) = some bs ∧ decodeSDD bs = some s ∧ (∀ d ∈ s.dims, 0 ≤ d) ∧
+      (∃ w, checkNT c.elems w s.dataNT.1 s.dataNT.2 = ([], some sz)) ∧
+      (∀ p ∈ s.scaleNTs, ∃ w sz', checkNT c.elems w p.1 p.2 = ([], some sz')) ∧
+      (∀ dt dr de, memberOf ms [DFTAG_SD] = some (dt, dr) → writtenElem c.elems DFTAG_SD dr = some de →
+        de.ldata.len = prod (s.dims.map (·.toNat)) * sz) := by
+  have h0 := elemComplaints_nil (decodeFile_desc h) he
+  unfold elemComplaints at h0
+  rw [if_pos htag, hms] at h0
+  exact checkSDD_sound (checkSDD_nil h0 hr) hse
+
+/-- **an accepted file's image dimension records are consistent with its pixels**: for every `DFTAG_RIG` group of a file the reader
+    accepts and every `DFTAG_ID` the group names that is in the file: the record decodes (20 bytes), sizes ≥ 0, components ≥ 1,
+    interlace 0..2, and for an image without one of the old raster compression schemes the image element of the group is either
+    without pixels (length 0) or holds exactly xdim · ydim · components · size(number type) bytes -/
+theorem id_consistent (b : ByteArray) (c : FileContent) (h : decodeFile b = .ok c)
+    (e : Elem) (he : e ∈ c.elems) (htag : e.dd.tag = DFTAG_RIG)
+    (ms : List (Nat × Nat)) (hms : (e.ldata.data.map (·.toList)).bind decodeGroup = some ms)
+    (r : Nat) (hr : (DFTAG_ID, r) ∈ ms) (ie : Elem) (hie : elemOf c.elems DFTAG_ID r = some ie) :
+    ∃ bs d, ie.ldata.data.map (·.toList) = some bs ∧ decodeImgDesc bs = some d ∧
+      0 ≤ d.xdim ∧ 0 ≤ d.ydim ∧ 1 ≤ d.ncomps ∧ 0 ≤ d.interlace ∧ d.interlace ≤ 2 ∧
+      ((d.compTag = 0 ∨ d.compTag = DFTAG_NULL) → ∃ w sz, imgNT c.elems w d = ([], some sz) ∧
+        ∀ dt dr de, memberOf ms [DFTAG_RI, DFTAG_CI] = some (dt, dr) → writtenElem c.elems dt dr = some de →
+          de.ldata.len = d.xdim.toNat * d.ydim.toNat * d.ncomps.toNat * sz ∨ de.ldata.len = 0) := by
+  have h0 := elemComplaints_nil (decodeFile_desc h) he
+  unfold elemComplaints at h0
+  have hn : ¬ (e.dd.tag = H4.Gen.Hdf.DFTAG_NDG ∨ e.dd.tag = DFTAG_SDG) := by rw [htag]; decide
+  rw [if_neg hn, if_pos htag, hms] at h0
+  exact checkImgDesc_sound (checkImgDesc_nil h0 hr) hie
+
+/-- an 8-bit image of 3 x 2 pixels with its RIG: accepted with 6 bytes of pixels and without pixels, rejected (clause `id`) with 5 -/
+def rigElems (pixels : Bytes) : List Elem :=
+  let plain (tag ref : Nat) (bs : Bytes) : Elem := ⟨⟨tag, ref, 100, bs.length⟩, .plain, ⟨bs.length, some ⟨bs.toArray⟩⟩, [], []⟩
+  [plain 106 1 (encodeNT ⟨1, 21, 8, 0⟩),
+   plain 300 1 (encodeImgDesc ⟨3, 2, 106, 1, 1, 0, 0, 0⟩),
+   plain 302 1 pixels,
+   plain 306 1 (enc16 300 ++ enc16 1 ++ enc16 302 ++ enc16 1)]
+example : descComplaints (rigElems [1, 2, 3, 4, 5, 6]) [] = [] := by decide +kernel
+example : descComplaints (rigElems []) [] = [] := by decide +kernel
+example : (descComplaints (rigElems [1, 2, 3, 4, 5]) []).map (·.1) = ["id"] := by decide +kernel
+
+/-- the hypotheses are satisfiable and the clause has teeth.  `recFile n` = the descriptive part of a file with one record variable:
+    number type int16 (106/5), dimension record 701/5 claiming `n` records, data element 702/6 of 4 bytes (2 records), group 720/4 -/
+def recElems (n : Int) : List Elem :=
+  let plain (tag ref : Nat) (bs : Bytes) : Elem := ⟨⟨tag, ref, 100, bs.length⟩, .plain, ⟨bs.length, some ⟨bs.toArray⟩⟩, [], []⟩
+  [plain 106 5 (encodeNT ⟨1, 22, 16, 1⟩),
+   plain 701 5 (encodeSDD ⟨[n], (106, 5), [(106, 5)]⟩),
+   plain 702 6 [0, 1, 0, 2],
+   plain 720 4 (enc16 702 ++ enc16 6 ++ enc16 106 ++ enc16 5 ++ enc16 701 ++ enc16 5 ++ enc16 721 ++ enc16 5)]
+/-- the variable's own record count: accepted -/
+example : descComplaints (recElems 2) [] = [] := by decide +kernel
+/-- the record count of a longer variable of the same file (the dimension record describes 10 bytes, the data element holds 4): rejected
+    with clause `sdd` -/
+example : (descComplaints (recElems 5) []).map (·.1) = ["sdd"] := by decide +kernel
+/-- a number type whose width is not that of its type: clause `nt` -/
+example : ((checkNT [⟨⟨106, 5, 100, 4⟩, .plain, ⟨4, some ⟨#[1, 22, 32, 1]⟩⟩, [], []⟩] "x" 106 5).1).map (·.1) = ["nt"] := by decide +kernel
 
 /-- non-vacuity: a 30-byte file (magic, one block of two descriptors, one of them a 2-byte element) is accepted,
     hence well formed -/
